@@ -198,6 +198,13 @@ func (c *C14) variants() map[string][]c14Variant {
 	m5 := []*mhubtypes.ExternalSigner{{Power: 100, ExternalAddress: r1}, {Power: 50, ExternalAddress: r3}, {Power: 50, ExternalAddress: r3}}
 	m6 := []*mhubtypes.ExternalSigner{{Power: 100, ExternalAddress: r1}, {Power: 100, ExternalAddress: r1}, {Power: 100, ExternalAddress: r1}}
 	m7 := []*mhubtypes.ExternalSigner{{Power: 50, ExternalAddress: r2}, {Power: 100, ExternalAddress: r1}}
+	// three members whose normalised powers add up to 2^32, and the list that results when the last byte of every power
+	// is read as the first byte of the next member's address (a members hash that writes powers without fixed width
+	// cannot tell the two apart)
+	const aA, aB, aC = "0x1111111111111111111111111111111111111111", "0xb0b2222222222222222222222222222222222222", "0xc0c3333333333333333333333333333333333333"
+	const pA, pB, pC = uint64(0x61234567), uint64(0x57654321), uint64(0x47777778)
+	m8 := []*mhubtypes.ExternalSigner{{Power: pA, ExternalAddress: aA}, {Power: pB, ExternalAddress: aB}, {Power: pC, ExternalAddress: aC}}
+	m9 := []*mhubtypes.ExternalSigner{{Power: pA<<8 | 0xb0, ExternalAddress: aA}, {Power: (pB&0xffffff)<<8 | 0xc0, ExternalAddress: "0x" + aB[4:] + "57"}, {Power: pC & 0xffffff, ExternalAddress: "0x" + aC[4:] + "47"}}
 	sse := func(mod func(e *mhubtypes.SignerSetTxExecutedEvent)) *mhubtypes.SignerSetTxExecutedEvent {
 		e := &mhubtypes.SignerSetTxExecutedEvent{EventNonce: 7, SignerSetTxNonce: 1, ExternalHeight: 100, Members: m1, TxHash: "0xaa"}
 		mod(e)
@@ -217,6 +224,8 @@ func (c *C14) variants() map[string][]c14Variant {
 		{"members(another repeated)", "ethereum", sse(func(e *mhubtypes.SignerSetTxExecutedEvent) { e.Members = m5 })},
 		{"members(same thrice)", "ethereum", sse(func(e *mhubtypes.SignerSetTxExecutedEvent) { e.Members = m6 })},
 		{"members(reordered)", "ethereum", sse(func(e *mhubtypes.SignerSetTxExecutedEvent) { e.Members = m7 })},
+		{"members(three, powers adding up to 2^32)", "ethereum", sse(func(e *mhubtypes.SignerSetTxExecutedEvent) { e.Members = m8 })},
+		{"members(the same bytes cut one byte later at every member boundary)", "ethereum", sse(func(e *mhubtypes.SignerSetTxExecutedEvent) { e.Members = m9 })},
 		{"txhash", "ethereum", sse(func(e *mhubtypes.SignerSetTxExecutedEvent) { e.TxHash = "0xbb" })},
 		// a hash of the usual length, and the same hash with something after it (no Validate bounds the length)
 		{"txhash(66 characters)", "ethereum", sse(func(e *mhubtypes.SignerSetTxExecutedEvent) { e.TxHash = "0x" + strings.Repeat("ab", 32) })},
